@@ -274,7 +274,7 @@ func runC42(x *simkit.Exec) {
 					omu.Lock()
 					order = append(order, r.tag.id)
 					omu.Unlock()
-					s.Note("done %s: %s", r.tag.id, r.got.brief())
+					s.Note("done %s: %s", r.tag.id, r.got.class())
 				}
 			})
 		}
